@@ -209,9 +209,12 @@ def run(prog, which=("ir", "peg", "rowan")):
             want = [sorted(l) for l in SPEC_LEVELS]
             obs.append(ok(RULE, "peg:levels", stp, "10 precedence levels in the specified order") if got == want else
                        bad(RULE, "peg:levels", stp, "PEG precedence levels differ from the grammar: %s" % got))
-            nonleft = [n for l in bin_levels for t, n, a in l if a != "left"]
-            obs.append(ok(RULE, "peg:associativity", stp, "all binary operators left-associative") if not nonleft else
-                       bad(RULE, "peg:associativity", stp, "PEG grammar: %s not left-associative (`a ^ b ^ c` groups to the right; the default parser groups to the left)" % nonleft))
+            # one obligation per operator, so that a recorded finding for one operator cannot hide another
+            for l in bin_levels:
+                for t, n, a in l:
+                    key = "peg:associativity:%s" % n
+                    obs.append(ok(RULE, key, stp, "`%s` is left-associative" % t) if a == "left" else
+                               bad(RULE, key, stp, "PEG grammar: `%s` (%s) is not left-associative: `a %s b %s c` groups to the right, the default parser groups to the left" % (t, n, t, t)))
             badtok = [(t, n) for l in bin_levels for t, n, a in l if SPEC_TOKENS.get(t) != n]
             obs.append(ok(RULE, "peg:tokens", stp, "19 operator tokens map to their operators") if not badtok and sum(len(l) for l in bin_levels) == 19 else
                        bad(RULE, "peg:tokens", stp, "PEG token/operator pairs differ from the grammar: %s" % badtok))
